@@ -12,7 +12,13 @@
 //!
 //! A mismatch is classified by a structural diff of original and decoded object
 //! (field, and for scripts the ScriptBit form that changed), so unrelated defects
-//! get different root-cause keys.
+//! get different root-cause keys. A decoder's nesting-limit refusal carries the input class in its key
+//! (`/nesting>=L` or `/nesting<L`, L = first level the parsers' default limits refuse), so a limit that
+//! bites earlier than on the unchanged library is a key of its own.
+//!
+//! Besides the boundary-value products there are contiguous sweeps (every value of a range, because a
+//! defect window can lie between the usual boundaries): conditional nesting depth, push payload length,
+//! powers of two as amounts, input/output counts.
 use super::{hx, pattern, replay_spaces_for, run_spaces_for, Case, Prop, Space};
 use crate::engine::{coords, guard, panic_site, Acc, Ctx, Report, Tier};
 use crate::refs::wire as rw;
@@ -34,7 +40,64 @@ const VALUES_Q: [u64; 6] = [0, 1, 1 << 53, (1 << 53) + 1, 1 << 63, u64::MAX];
 /// thorough: also both sides of every CBOR integer-width boundary and of 2^63
 const VALUES_T: [u64; 17] = [0, 1, 1 << 53, (1 << 53) + 1, 1 << 63, u64::MAX, 23, 24, 255, 256, 65535, 65536, 0xffff_ffff, 1 << 32, (1 << 63) - 1, u64::MAX - 1, 2_100_000_000_000_000];
 const U32S: [u32; 7] = [0, 1, 2, 0x7fff_ffff, 0x8000_0000, 0xffff_fffe, 0xffff_ffff];
-const DEPTHS: [usize; 22] = [1, 2, 3, 4, 8, 16, 32, 48, 60, 61, 62, 63, 64, 65, 100, 126, 127, 128, 129, 130, 200, 300];
+
+/// Nesting depths of conditionals: EVERY depth up to beyond the decoders' default limits (interior depths matter as much
+/// as the boundaries: a lowered limit can sit anywhere), plus two far ones.
+fn depths(tier: Tier) -> Vec<usize> {
+    if tier.is_thorough() {
+        (1..=300).collect()
+    } else {
+        (1..=140).chain([200, 300]).collect()
+    }
+}
+const DEPTH_INNER: [&str; 4] = ["innermost=OP_1,no-else", "empty-else-on-every-level", "innermost=OP_PUSHDATA1-tuple,no-else", "nested-through-the-else-branch,innermost=OP_1"];
+const DEPTH_POS: [&str; 3] = ["script_sig", "locking_script", "script_pub_key"];
+
+/// Push payload lengths: EVERY length in a contiguous range (a defect window can lie between the usual boundaries).
+fn push_lengths(tier: Tier) -> Vec<usize> {
+    if tier.is_thorough() {
+        (0..=4200).chain(16383..=16386).chain(65535..=65537).collect()
+    } else {
+        (0..=1100).collect()
+    }
+}
+const PUSH_CARRIERS: [&str; 6] = [
+    "script_sig/minimal-push",
+    "locking_script/minimal-push",
+    "script_pub_key/minimal-push",
+    "script_sig/OP_PUSHDATA2(OP_PUSHDATA4 above 65535)",
+    "script_pub_key/OP_PUSHDATA4",
+    "coinbase-blob-of-this-length",
+];
+
+/// every 2^k - 1, 2^k, 2^k + 1 that fits 64 bits (thorough: the same around every power of ten and the money supply)
+fn satoshi_sweep(tier: Tier) -> Vec<u64> {
+    let mut v: Vec<u64> = vec![0, u64::MAX];
+    for k in 0..64u32 {
+        let p = 1u64 << k;
+        v.extend_from_slice(&[p - 1, p, p + 1]);
+    }
+    if tier.is_thorough() {
+        let mut p = 1u64;
+        for _ in 0..20 {
+            v.extend_from_slice(&[p - 1, p, p + 1]);
+            p = p.saturating_mul(10);
+        }
+        v.extend_from_slice(&[2_099_999_999_999_999, 2_100_000_000_000_000, 2_100_000_000_000_001]);
+    }
+    v.sort();
+    v.dedup();
+    v
+}
+const SAT_PLACES: [&str; 3] = ["input-satoshis", "output-value", "input-satoshis+locking-script+output-value"];
+
+fn counts(tier: Tier) -> Vec<usize> {
+    if tier.is_thorough() {
+        (0..=40).chain([252, 253, 255, 256, 257]).collect()
+    } else {
+        (0..=20).collect()
+    }
+}
 
 fn values(tier: Tier) -> Vec<u64> {
     if tier.is_thorough() {
@@ -449,7 +512,40 @@ trait Obj: Sized + PartialEq {
     fn diff(&self, other: &Self, tags: &mut Vec<String>);
     /// (json pointer-ish description, original u64) of every 64-bit field, as located in the emitted JSON
     fn u64_fields(&self) -> Vec<(String, Vec<String>, u64)>;
+    /// container levels (arrays + maps) the library's serde layout needs for this object — see `bits_nesting`
+    fn nesting(&self) -> usize;
 }
+
+/// Container nesting of a script in the library's serde layout, learned from the implementation
+/// (`Script` = array of bits; `If` = map holding the branch arrays; `PushData` = 2-tuple; the rest scalars).
+/// Used only to name the input class in the key of a recursion-limit refusal, never as an expectation.
+fn bits_nesting(bits: &[ScriptBit]) -> usize {
+    1 + bits
+        .iter()
+        .map(|b| match b {
+            ScriptBit::If { pass, fail, .. } => 1 + bits_nesting(pass).max(fail.as_ref().map(|f| bits_nesting(f)).unwrap_or(0)),
+            ScriptBit::PushData(..) => 1,
+            _ => 0,
+        })
+        .max()
+        .unwrap_or(0)
+}
+
+fn txin_nesting(i: &TxIn) -> usize {
+    1 + bits_nesting(&i.get_unlocking_script().to_script_bits()).max(i.get_locking_script().map(|l| bits_nesting(&l.to_script_bits())).unwrap_or(0))
+}
+
+fn tx_nesting(t: &Transaction) -> usize {
+    let ins = (0..t.get_ninputs()).filter_map(|i| t.get_input(i)).map(|i| txin_nesting(&i)).max().unwrap_or(0);
+    let outs = (0..t.get_noutputs()).filter_map(|i| t.get_output(i)).map(|o| 1 + bits_nesting(&o.get_script_pub_key().to_script_bits())).max().unwrap_or(0);
+    2 + ins.max(outs)
+}
+
+/// First nesting level the decoders' *default* limits refuse on the unchanged library:
+/// serde_json (limit 128) refuses the 128th nested container, ciborium (limit 256) the 257th.
+/// `serde_json::from_value` has no limit.
+const JSON_REFUSED_NESTING: usize = 128;
+const CBOR_REFUSED_NESTING: usize = 257;
 
 impl Obj for Transaction {
     const NAME: &'static str = "Transaction";
@@ -485,6 +581,9 @@ impl Obj for Transaction {
     }
     fn diff(&self, other: &Self, tags: &mut Vec<String>) {
         diff_tx(self, other, tags)
+    }
+    fn nesting(&self) -> usize {
+        tx_nesting(self)
     }
     fn u64_fields(&self) -> Vec<(String, Vec<String>, u64)> {
         let mut v = vec![];
@@ -536,6 +635,9 @@ impl Obj for TxIn {
     }
     fn diff(&self, other: &Self, tags: &mut Vec<String>) {
         diff_txin(self, other, tags)
+    }
+    fn nesting(&self) -> usize {
+        txin_nesting(self)
     }
     fn u64_fields(&self) -> Vec<(String, Vec<String>, u64)> {
         match self.get_satoshis() {
@@ -645,8 +747,17 @@ fn roundtrip<T: Obj>(acc: &mut Acc, case: &Case, t: &T, input: &dyn Fn() -> Valu
         1
     };
     let fail = |sink: &mut Sink, fam: &str, entry: &str, stage: &str, e: &LibErr| -> u8 {
-        let key = if e.0 == "error" { format!("C18/{}/kind={}-error/err={}", fam, stage, slug(&e.1)) } else { format!("C18/{}/kind={}-{}", fam, stage, e.0) };
-        sink.add(key, entry, format!("{} {} failed: {}; wire of the original={}", T::NAME, entry, e.1, hx(&wire0)));
+        let mut key = if e.0 == "error" { format!("C18/{}/kind={}-error/err={}", fam, stage, slug(&e.1)) } else { format!("C18/{}/kind={}-{}", fam, stage, e.0) };
+        let mut note = String::new();
+        if e.0 == "error" && slug(&e.1).contains("recursion") {
+            // A nesting-limit refusal is identified by the input class it hits: below or at/above the level
+            // that the parsers' default limits refuse on the unchanged library. A limit that bites earlier is a different defect.
+            let n = t.nesting();
+            let first_refused = if fam == "json" { JSON_REFUSED_NESTING } else { CBOR_REFUSED_NESTING };
+            key.push_str(&if n >= first_refused { format!("/nesting>={}", first_refused) } else { format!("/nesting<{}", first_refused) });
+            note = format!(" (the object needs {} nested containers in the library's layout)", n);
+        }
+        sink.add(key, entry, format!("{} {} failed: {}{}; wire of the original={}", T::NAME, entry, e.1, note, hx(&wire0)));
         if stage == "encode" {
             3
         } else {
@@ -776,9 +887,10 @@ fn tx_desc(t: &Transaction) -> Value {
 }
 
 /// One case = one evaluation; checks the transaction and each of its inputs on its own.
-fn check_tx(acc: &mut Acc, case: &Case, t: &Transaction, names: Value, inputs_alone: bool) {
+fn check_tx(acc: &mut Acc, case: &Case, t: &Transaction, names: Value, inputs_alone: bool) -> [u8; 4] {
     acc.evaluations += 1;
-    let mut compared = roundtrip(acc, case, t, &|| json!({"object": "Transaction", "built_from": names, "tx": tx_desc(t)})).iter().any(|s| *s <= 1);
+    let tx_status = roundtrip(acc, case, t, &|| json!({"object": "Transaction", "built_from": names, "tx": tx_desc(t)}));
+    let mut compared = tx_status.iter().any(|s| *s <= 1);
     if inputs_alone {
         for k in 0..t.get_ninputs() {
             if let Some(i) = t.get_input(k) {
@@ -789,6 +901,7 @@ fn check_tx(acc: &mut Acc, case: &Case, t: &Transaction, names: Value, inputs_al
     if compared {
         acc.nontrivial_structural += 1;
     }
+    tx_status
 }
 
 fn fixed_out(sc: &Alpha) -> TxOut {
@@ -876,17 +989,46 @@ fn shape_alphabets(tier: Tier, a: &Alpha) -> (Vec<NamedIn>, Vec<NamedOut>) {
     (ins, outs)
 }
 
-fn nested_if(depth: usize, with_else: bool) -> Vec<u8> {
-    let mut b = vec![0x63u8; depth];
-    if with_else {
-        for _ in 0..depth {
-            b.extend_from_slice(&[0x67, 0x68]);
+fn nested_if(depth: usize, inner: usize) -> Vec<u8> {
+    match inner {
+        1 => {
+            let mut b = vec![0x63u8; depth];
+            for _ in 0..depth {
+                b.extend_from_slice(&[0x67, 0x68]);
+            }
+            b
         }
-    } else {
-        b.push(0x51);
-        b.extend(vec![0x68u8; depth]);
+        3 => {
+            let mut b = vec![];
+            for _ in 0..depth {
+                b.extend_from_slice(&[0x63, 0x67]);
+            }
+            b.push(0x51);
+            b.extend(vec![0x68u8; depth]);
+            b
+        }
+        _ => {
+            let mut b = vec![0x63u8; depth];
+            if inner == 2 {
+                b.extend_from_slice(&pd1(&[0xaa]));
+            } else {
+                b.push(0x51);
+            }
+            b.extend(vec![0x68u8; depth]);
+            b
+        }
     }
-    b
+}
+
+/// smallest encoding that carries `data` as a push payload (an empty payload needs OP_PUSHDATA1 00: OP_0 is an opcode to the library)
+fn minimal_push(data: &[u8]) -> Vec<u8> {
+    match data.len() {
+        0 => pd1(data),
+        1..=75 => direct(data),
+        76..=255 => pd1(data),
+        256..=65535 => pd2(data),
+        _ => pd4(data),
+    }
 }
 
 pub fn spaces(tier: Tier) -> Vec<Space> {
@@ -937,7 +1079,7 @@ pub fn spaces(tier: Tier) -> Vec<Space> {
                 _ => tx_of(1, 0, &[coinbase_in(&sc.script.to_bytes(), 0xffff_ffff)], &[fixed_out(&a)]),
             };
             if case.idx == 21 * 4 {
-                acc.sample(1, || json!({"space": "script-forms", "script": sc.name, "position": pos, "json": t.to_json_string().unwrap_or_default()}));
+                acc.sample(1, || json!({"space": "script-forms", "script": sc.name, "position": pos, "json": guard(|| t.to_json_string().unwrap_or_default()).unwrap_or_default()}));
             }
             check_tx(acc, case, &t, json!({"script": sc.name, "position": pos}), true);
         }));
@@ -968,7 +1110,7 @@ pub fn spaces(tier: Tier) -> Vec<Space> {
             let e = apply_ext(&mut i, &exts[c[1] as usize], &a.core);
             let t = tx_of(2, 0, &[i], &[]);
             if case.idx == 7 || case.idx == (a.core.len() as u64) * ne + 7 {
-                acc.sample(2 + (case.idx > 7) as u64, || json!({"space": "txin-product", "input": kname, "extended": e, "txin_json": t.get_input(0).and_then(|x| x.to_json().ok())}));
+                acc.sample(2 + (case.idx > 7) as u64, || json!({"space": "txin-product", "input": kname, "extended": e, "txin_json": guard(|| t.get_input(0).and_then(|x| x.to_json().ok())).unwrap_or_default()}));
             }
             check_tx(acc, case, &t, json!({"input": kname, "extended": e}), true);
         }));
@@ -1053,21 +1195,22 @@ pub fn spaces(tier: Tier) -> Vec<Space> {
             let t = tx_of(ver, lt, &tins, &touts);
             let names = json!({"version": ver, "n_locktime": lt, "inputs": it.iter().map(|k| ins[*k].name.clone()).collect::<Vec<_>>(), "outputs": ot.iter().map(|k| outs[*k].name.clone()).collect::<Vec<_>>()});
             if case.idx == 0 || (it == [2usize] && ot == [0usize] && c[0] == 0) {
-                acc.sample(4 + (case.idx > 0) as u64, || json!({"space": "tx-shapes", "built_from": names, "json": t.to_json_string().unwrap_or_default(), "cbor_hex": t.to_compact_hex().unwrap_or_default()}));
+                acc.sample(4 + (case.idx > 0) as u64, || json!({"space": "tx-shapes", "built_from": names, "json": guard(|| t.to_json_string().unwrap_or_default()).unwrap_or_default(), "cbor_hex": guard(|| t.to_compact_hex().unwrap_or_default()).unwrap_or_default()}));
             }
             // inputs on their own are covered by spaces 2, 3 and 5; here only the first case of each input tuple re-checks them
             check_tx(acc, case, &t, names, c[2] == 0 && c[0] == 0);
         }));
     }
 
-    // 8. nesting depth of conditionals (isolated: decoders recurse per level)
+    // 8. nesting depth of conditionals (isolated: decoders recurse per level): every depth x inner form x position
     {
-        let nd = DEPTHS.len() as u64;
-        v.push(Space::isolated("if-depth", nd * 2 * 2, move |case, acc| {
-            let c = coords(case.idx, &[nd, 2, 2]);
-            let d = DEPTHS[c[0] as usize];
-            let bytes = nested_if(d, c[1] == 1);
-            let names = json!({"nested_if_depth": d, "else_on_every_level": c[1] == 1, "position": if c[2] == 0 {"script_sig"} else {"script_pub_key"}});
+        let ds = depths(tier);
+        let nd = ds.len() as u64;
+        v.push(Space::isolated("if-depth", nd * 4 * 3, move |case, acc| {
+            let c = coords(case.idx, &[nd, 4, 3]);
+            let d = ds[c[0] as usize];
+            let bytes = nested_if(d, c[1] as usize);
+            let names = json!({"nested_if_depth": d, "form": DEPTH_INNER[c[1] as usize], "position": DEPTH_POS[c[2] as usize]});
             let sc = match guard(|| Script::from_bytes(&bytes)) {
                 Ok(Ok(s)) => s,
                 _ => {
@@ -1077,16 +1220,155 @@ pub fn spaces(tier: Tier) -> Vec<Space> {
                     return;
                 }
             };
-            let t = if c[2] == 0 { tx_of(1, 0, &[ordinary_in(&sc, 2, 0, 0xffff_ffff)], &[]) } else { tx_of(1, 0, &[], &[TxOut::new(1, &sc)]) };
+            let t = match c[2] {
+                0 => tx_of(1, 0, &[ordinary_in(&sc, 2, 0, 0xffff_ffff)], &[]),
+                1 => {
+                    let mut i = ordinary_in(&Script::default(), 2, 0, 0xffff_ffff);
+                    i.set_locking_script(&sc);
+                    tx_of(1, 0, &[i], &[])
+                }
+                _ => tx_of(1, 0, &[], &[TxOut::new(1, &sc)]),
+            };
+            let st = check_tx(acc, case, &t, names, true);
+            // evidence that the nesting buckets used in the keys are exact on this tree (information only)
+            let n = tx_nesting(&t);
+            for (leg, s, first_refused) in [("json_string", st[0], JSON_REFUSED_NESTING), ("cbor_bytes", st[2], CBOR_REFUSED_NESTING)] {
+                if s <= 1 {
+                    acc.bump(&format!("{}_decoded_with_nesting_{}_the_default_refusal_level", leg, if n >= first_refused { "AT_OR_ABOVE" } else { "below" }), 1);
+                    if n + 1 == first_refused {
+                        acc.bump(&format!("{}_decoded_one_level_below_the_default_refusal_level", leg), 1);
+                    }
+                } else if s == 2 && n == first_refused {
+                    acc.bump(&format!("{}_refused_exactly_at_the_default_refusal_level", leg), 1);
+                }
+            }
+        }));
+    }
+
+    // 9. push payload length sweep: every length x carrier (position / push form), through all four entry-point pairs
+    {
+        let ls = push_lengths(tier);
+        let (nl, nc) = (ls.len() as u64, PUSH_CARRIERS.len() as u64);
+        let a = alpha.clone();
+        v.push(Space::new("push-lengths", nl * nc, move |case, acc| {
+            let c = coords(case.idx, &[nl, nc]);
+            let n = ls[c[0] as usize];
+            let data = pattern(4 + c[1], n);
+            let names = json!({"push_payload_length": n, "carrier": PUSH_CARRIERS[c[1] as usize]});
+            let bytes = match c[1] {
+                0 | 1 | 2 => minimal_push(&data),
+                3 if n <= 65535 => pd2(&data),
+                3 | 4 => pd4(&data),
+                _ => vec![],
+            };
+            let sc = if c[1] == 5 {
+                Script::default()
+            } else {
+                match guard(|| Script::from_bytes(&bytes)) {
+                    Ok(Ok(s)) => s,
+                    _ => {
+                        acc.evaluations += 1;
+                        acc.bump("push_script_refused_by_parser", 1);
+                        acc.outcome(b"push-refused");
+                        return;
+                    }
+                }
+            };
+            let t = match c[1] {
+                0 | 3 => tx_of(1, 0, &[ordinary_in(&sc, 2, 0, 0xffff_ffff)], &[fixed_out(&a)]),
+                1 => {
+                    let mut i = ordinary_in(&Script::default(), 2, 0, 0xffff_ffff);
+                    i.set_satoshis(1);
+                    i.set_locking_script(&sc);
+                    tx_of(1, 0, &[i], &[fixed_out(&a)])
+                }
+                2 | 4 => tx_of(1, 0, &[], &[TxOut::new(1, &sc)]),
+                _ => tx_of(1, 0, &[coinbase_in(&data, 0xffff_ffff)], &[fixed_out(&a)]),
+            };
+            if n == 600 && c[1] == 2 {
+                acc.sample(6, || json!({"space": "push-lengths", "built_from": names, "cbor_length": guard(|| t.to_compact_bytes().map(|b| b.len()).ok()).unwrap_or_default(), "json_length": guard(|| t.to_json_string().map(|s| s.len()).ok()).unwrap_or_default()}));
+            }
             check_tx(acc, case, &t, names, true);
+        }));
+    }
+
+    // 10. 64-bit amounts: every power of two and its neighbours x place
+    {
+        let sv = satoshi_sweep(tier);
+        let ns = sv.len() as u64;
+        let a = alpha.clone();
+        v.push(Space::new("satoshi-powers", ns * 3, move |case, acc| {
+            let c = coords(case.idx, &[ns, 3]);
+            let x = sv[c[0] as usize];
+            let lock = a.core.iter().find(|s| s.name == "p2pkh-locking").map(|s| s.script.clone()).unwrap_or_default();
+            let mut i = ordinary_in(&a.core[1].script, 5, 1, 0xffff_fffe);
+            let t = match c[1] {
+                0 => {
+                    i.set_satoshis(x);
+                    tx_of(1, 0, &[i], &[])
+                }
+                1 => tx_of(1, 0, &[i], &[TxOut::new(x, &lock)]),
+                _ => {
+                    i.set_satoshis(x);
+                    i.set_locking_script(&lock);
+                    tx_of(2, 0, &[i], &[TxOut::new(x, &lock), TxOut::new(x ^ 1, &Script::default())])
+                }
+            };
+            check_tx(acc, case, &t, json!({"amount": x, "place": SAT_PLACES[c[1] as usize]}), true);
+        }));
+    }
+
+    // 11. element counts: n_inputs x n_outputs, every count
+    {
+        let cs = counts(tier);
+        let nn = cs.len() as u64;
+        let a = alpha.clone();
+        let vs = vals.clone();
+        v.push(Space::new("tx-counts", nn * nn, move |case, acc| {
+            let c = coords(case.idx, &[nn, nn]);
+            let (ni, no) = (cs[c[0] as usize], cs[c[1] as usize]);
+            let k = a.core.len();
+            let ins: Vec<TxIn> = (0..ni)
+                .map(|j| {
+                    let mut i = ordinary_in(&a.core[(j * 5 + 1) % k].script, 2 + (j as u64 % 7), j as u32, 0xffff_ffff - (j as u32 % 3));
+                    match j % 4 {
+                        1 => i.set_satoshis(vs[j % vs.len()]),
+                        2 => i.set_locking_script(&a.core[(j * 3) % k].script),
+                        3 => {
+                            i.set_satoshis(vs[j % vs.len()]);
+                            i.set_locking_script(&a.core[(j * 3) % k].script);
+                        }
+                        _ => {}
+                    }
+                    i
+                })
+                .collect();
+            let outs: Vec<TxOut> = (0..no).map(|j| TxOut::new(vs[(j + 1) % vs.len()].wrapping_sub(j as u64 / vs.len() as u64), &a.core[(j * 7 + 2) % k].script)).collect();
+            let t = tx_of(1, 0, &ins, &outs);
+            check_tx(acc, case, &t, json!({"n_inputs": ni, "n_outputs": no, "inputs": "ordinary, core script (5j+1) mod k, vout j, extended fields by j mod 4", "outputs": "value alphabet cycled, core script (7j+2) mod k"}), c[1] == 0);
         }));
     }
     v
 }
 
+/// compact description of a sorted list of integers as inclusive ranges
+fn ranges_of(v: &[usize]) -> Vec<String> {
+    let mut out = vec![];
+    let mut i = 0;
+    while i < v.len() {
+        let mut j = i;
+        while j + 1 < v.len() && v[j + 1] == v[j] + 1 {
+            j += 1;
+        }
+        out.push(if i == j { v[i].to_string() } else { format!("{}..={}", v[i], v[j]) });
+        i = j + 1;
+    }
+    out
+}
+
 fn run(ctx: &Ctx) -> Report {
     let mut r = Report::new(
-        "differential round trip on freshly built objects, full products: (1) all 256 one-byte scripts the parser accepts, in script_sig + locking_script + script_pub_key; (2) every script form of the full alphabet x {script_sig, locking_script, script_pub_key, coinbase blob of the same bytes}; (3) one input: (ordinary x core script | coinbase x blob) x (no extended field | satoshis v | locking script l | both v x l); (4) output value x core script; (5) input txid x vout x sequence x ext, built by the library's own parser from reference wire bytes (coinbase outpoint included); (6) version x locktime; (7) every tuple of 0..=3 inputs x every tuple of 0..=3 outputs over the shape alphabets x headers; (8) conditionals nested to each listed depth, with/without ELSE, in an input and in an output. Every case: 4 encode/decode entry-point pairs for the Transaction and for each TxIn on its own (in (7) the inputs-alone leg runs once per input tuple), compared by PartialEq, structural accessor diff, wire bytes, txid (library + reference) and extended accessors. Non-trivial = at least one decode returned an object that was compared; cases are distinct by construction of the products.",
+        "differential round trip on freshly built objects, full products: (1) all 256 one-byte scripts the parser accepts, in script_sig + locking_script + script_pub_key; (2) every script form of the full alphabet x {script_sig, locking_script, script_pub_key, coinbase blob of the same bytes}; (3) one input: (ordinary x core script | coinbase x blob) x (no extended field | satoshis v | locking script l | both v x l); (4) output value x core script; (5) input txid x vout x sequence x ext, built by the library's own parser from reference wire bytes (coinbase outpoint included); (6) version x locktime; (7) every tuple of 0..=3 inputs x every tuple of 0..=3 outputs over the shape alphabets x headers; (8) conditionals nested to EVERY depth of the listed range x {innermost OP_1 | empty ELSE on every level | innermost OP_PUSHDATA1 tuple | nested through the ELSE branch} x {script_sig, extended locking script, output script}; (9) a push payload of EVERY length of the listed range x {script_sig, locking script, output script as the smallest push form; script_sig as OP_PUSHDATA2; output script as OP_PUSHDATA4; coinbase blob of that length}; (10) every 2^k-1, 2^k, 2^k+1 below 2^64 as input satoshis / output value / both; (11) every n_inputs x n_outputs of the listed counts. Every case: 4 encode/decode entry-point pairs for the Transaction and for each TxIn on its own (in (7) the inputs-alone leg runs once per input tuple), compared by PartialEq, structural accessor diff, wire bytes, txid (library + reference) and extended accessors. Non-trivial = at least one decode returned an object that was compared; cases are distinct by construction of the products.",
     );
     let a = script_alphabet(ctx.tier);
     let (ins, outs) = shape_alphabets(ctx.tier, &a);
@@ -1100,13 +1382,18 @@ fn run(ctx: &Ctx) -> Report {
         "shape_inputs": ins.iter().map(|i| i.name.clone()).collect::<Vec<_>>(),
         "shape_outputs": outs.iter().map(|o| o.name.clone()).collect::<Vec<_>>(),
         "max_inputs": 3, "max_outputs": 3,
-        "if_depths": DEPTHS,
+        "if_depths": ranges_of(&depths(ctx.tier)), "if_depth_forms": DEPTH_INNER, "if_depth_positions": DEPTH_POS,
+        "push_payload_lengths": ranges_of(&push_lengths(ctx.tier)), "push_carriers": PUSH_CARRIERS,
+        "satoshi_sweep": satoshi_sweep(ctx.tier), "satoshi_places": SAT_PLACES,
+        "n_inputs_and_n_outputs": ranges_of(&counts(ctx.tier)),
+        "recursion_refusal_key_buckets": {"json": format!("nesting>={0} | nesting<{0}", JSON_REFUSED_NESTING), "cbor": format!("nesting>={0} | nesting<{0}", CBOR_REFUSED_NESTING)},
         "deviation_bound": 0
     });
     r.assumptions.push("objects are built with Transaction::new/add_input/add_output, TxIn::new/set_satoshis/set_locking_script, Script::from_bytes / from_coinbase_bytes (two entries with Script::from_script_bits for an empty direct push) and are never signed, so the serde-skipped hash cache is empty on both sides of the PartialEq".into());
     r.assumptions.push("coinbase inputs carry the ScriptBit::Coinbase blob the library's own wire parser produces for the outpoint (zero txid, vout 0xffffffff); a parsed script placed by hand on a coinbase outpoint is not in the space".into());
     r.assumptions.push("no independent encoder: nothing is asserted about the JSON/CBOR layout itself except that 64-bit fields emitted as JSON numbers read back exactly with serde_json::Value (a field emitted in another shape is only counted in info)".into());
     r.assumptions.push("a decoder that refuses an encoding produced by the library's own encoder (e.g. nesting-depth limits of serde_json / ciborium) is reported as decode-error: the statement quantifies over every transaction, including nested conditionals".into());
+    r.assumptions.push("the key of a recursion-limit refusal carries the input class: the number of nested containers the object needs in the library's serde layout (Transaction 2 + TxIn/TxOut 1 + script 1 + 2 per conditional level + 1 for an OP_PUSHDATAn tuple), bucketed at the first level the parsers' default limits refuse on the unchanged library (serde_json: 128th, ciborium: 257th); a refusal below that level is a different key".into());
     run_spaces_for("C18", ctx, &mut r, spaces(ctx.tier));
     r
 }
